@@ -388,11 +388,19 @@ def run_butler_histories(payload):
 # registry caches: the same history inside caching_context() and without it
 # ------------------------------------------------------------------------------------------------
 NTYPES = 3
-NRUNS = 4      # collections 0..3 = RUN "r0".."r3"; 4,5 = CHAINED "ch4","ch5"; 6 = TAGGED "tag6"
+RUNS = (0, 1, 2, 3, 7, 8, 9)       # "r<n>"   RUN
+CHAINS = (4, 5, 10, 11)            # "ch<n>"  CHAINED
+TAGGED = (6, 12)                   # "tag<n>" TAGGED
+FIXTURE = (0, 1, 2, 3, 4, 5, 6)    # registered, in this order, before the history starts (keys 1..7 on SQLite)
 
 
 def _cname(c):
-    return f"r{c}" if c < NRUNS else (f"ch{c}" if c < 6 else f"tag{c}")
+    return f"r{c}" if c in RUNS else (f"ch{c}" if c in CHAINS else f"tag{c}")
+
+
+def _ctype(c):
+    from lsst.daf.butler import CollectionType
+    return CollectionType.RUN if c in RUNS else (CollectionType.CHAINED if c in CHAINS else CollectionType.TAGGED)
 
 
 def _one_registry_history(hist, use_ctx):
@@ -404,11 +412,8 @@ def _one_registry_history(hist, use_ctx):
         for t in range(NTYPES):
             fixture.add_dataset_type(b, f"c17t{t}")
         reg = b.registry
-        for c in range(NRUNS):
-            reg.registerRun(_cname(c))
-        reg.registerCollection(_cname(4), CollectionType.CHAINED)
-        reg.registerCollection(_cname(5), CollectionType.CHAINED)
-        reg.registerCollection(_cname(6), CollectionType.TAGGED)
+        for c in FIXTURE:
+            reg.registerCollection(_cname(c), _ctype(c))
         for c, kids in hist.get("init_chains", []):
             reg.setCollectionChain(_cname(c), [_cname(k) for k in kids])
         ids = {}
@@ -456,8 +461,11 @@ def _one_registry_history(hist, use_ctx):
                         want = [r for r in reg.queryDatasets(f"c17t{op['ty']}", collections=_cname(op["run"]))]
                         reg.associate(_cname(6), want)
                         ob["res"] = []
-                    elif k == "newrun":       # register a brand-new run and put into it
-                        reg.registerRun(f"r{op['c']}")
+                    elif k == "register":
+                        reg.registerCollection(_cname(op["c"]), _ctype(op["c"]))
+                        ob["res"] = []
+                    elif k == "remove":
+                        reg.removeCollection(_cname(op["c"]))
                         ob["res"] = []
                     else:
                         raise ValueError(k)
